@@ -173,21 +173,26 @@ fn private_is_dirty(
             }
             DepMode::Modified
                 if f2.is_generated()
-                    // (dealt with in this run already: its row says what this
-                    // run has to know, whoever holds its lock at the moment --
-                    // somebody who is merely checking it, as a rule)
-                    && !(cb.is_checked)(&f2, ptx.state().env())
                     && !already_checked.contains(&f2.id())
-                    && crate::cycles::check(f2.id().to_string()).is_ok()
-                    && ptx.state().is_locked_now(f2.id())? =>
+                    && ptx.state().is_being_built(f2.id())? =>
             {
-                // Somebody else (not the script that asked for this check: a
-                // dependency on that one is a cycle, found below) is building
-                // f2 right now: its row and its dependency rows are being
-                // rewritten and say nothing yet.  Have it dealt with first
-                // (that waits for its lock), then look again.
-                log_debug!("{}-- uncertain ({:?} is being built)\n", depth, f2.id());
-                dirty = Dirtiness::NeedTargets(vec![f2]);
+                // Somebody else (not an ancestor of the script that asked for
+                // this check: see above) is running f2's script right now: its
+                // row and its dependency rows are being rewritten and say
+                // nothing yet.  (A lock holder who is merely checking f2, or
+                // rebuilding its checksummed dependencies first, leaves the
+                // rows alone: they are read as usual.)
+                if f2.checksum().is_empty() {
+                    // Every build of such a target counts as a change.  f's
+                    // script waits for f2 if it still asks for it.
+                    log_debug!("{}-- DIRTY ({:?} is being built)\n", depth, f2.id());
+                    dirty = Dirtiness::Dirty;
+                } else {
+                    // Its checksum may come out the same: have it dealt with
+                    // first (that waits for its lock), then look again.
+                    log_debug!("{}-- uncertain ({:?} is being built)\n", depth, f2.id());
+                    dirty = Dirtiness::NeedTargets(vec![f2]);
+                }
             }
             DepMode::Modified => {
                 let sub = {
